@@ -468,6 +468,13 @@ CUSTOM_INIT_WITH_EXT = CUSTOM_INIT_PLAIN + (
     "    self._inner['extensions'][ext] = class_for_type(ext, version, 'extensions')()")
 
 
+# from fix 3b66676 on the empty `extensions` dict is put at its place in property order (a pure rearrangement of
+# the constructed object's own dict)
+CUSTOM_INIT_WITH_EXT_ORDERED = CUSTOM_INIT_WITH_EXT.replace(
+    "self._inner['extensions'] = {}", "_insert_in_property_order(self, 'extensions', {})")
+assert CUSTOM_INIT_WITH_EXT_ORDERED != CUSTOM_INIT_WITH_EXT
+
+
 def pre_for_custom(src, with_extension, user_init):
     """prehook for a class built by stix2.custom around a user class"""
     if src is None or user_init:
@@ -481,7 +488,7 @@ def pre_for_custom(src, with_extension, user_init):
     text = "\n".join(ast.unparse(b) for b in fn.body)
     if text == CUSTOM_INIT_PLAIN:
         return "(PreCustom false)"
-    if text == CUSTOM_INIT_WITH_EXT:
+    if text in (CUSTOM_INIT_WITH_EXT, CUSTOM_INIT_WITH_EXT_ORDERED):
         return "(PreCustom %s)" % ("true" if with_extension else "false")
     return "PreUnknown"
 
